@@ -271,7 +271,8 @@ fn hist_strategy(mclmc: bool, dims: &'static [usize]) -> BoxedStrategy<HistParam
             (
                 density_strategy(d, 6),
                 proptest::collection::vec(-1.0f64..1.0, d),
-                20u64..50,
+                // mostly a real warmup; one history in ten has no warmup at all or a single warmup draw
+                prop_oneof![8 => 20u64..50, 1 => Just(0u64), 1 => Just(1u64)],
                 8usize..30,
                 any::<u64>(),
                 2u64..=6,
@@ -287,7 +288,7 @@ fn enumerate(ctx: &mut Ctx) {
         part,
         "complete enumeration of 6 presets x {store_gradient, store_unconstrained, store_transformed, store_divergences} x mass-matrix \
          options (diag: store_mass_matrix x use_grad_based_estimate; low-rank: store_mass_matrix); per configuration generated histories \
-         (200 quick / 3000 thorough) on wall densities with dim in {0,1,2,5} (thorough also 17, 40; MCLMC >= 2), 28..80 draws; non-trivial = history \
+         (200 quick / 3000 thorough) on wall densities with dim in {0,1,2,5} (thorough also 17, 40; MCLMC >= 2), 28..80 draws (one history in ten with num_tune 0 or 1); non-trivial = history \
          with a divergence and >= 2 transformation updates; distinct by (preset, dim, flags)",
     );
     let reps = ctx.tier.pick(200usize, 3000usize);
